@@ -1325,7 +1325,7 @@ func (s *Netceptor) forwardMessage(md *MessageData) error {
 	s.Logger.Trace("    Forwarding data length %d via %s\n", len(md.Data), nextHop)
 	select {
 	case <-c.Context.Done():
-		return fmt.Errorf("connInfo cancelled while forwarding message")
+		return fmt.Errorf("connInfo cancelled while forwarding message: %w", ErrNoConnectionToNextHop)
 	case c.WriteChan <- message:
 	}
 
